@@ -1,6 +1,7 @@
 package streams
 
 import (
+	"encoding/json"
 	"fmt"
 	"math/rand"
 	"sort"
@@ -102,6 +103,13 @@ func streamCreatePod(r *rand.Rand, i int, tier string) *Case {
 	cp := canon.CPod(pod)
 	cp.Name = pod.GenerateName
 	same := compareReal(rs, pod, ni)
+	// the pod as the API server hands it back: built-in types are stored in canonical serialised
+	// form (quantities re-rendered), custom resources such as the setting verbatim
+	stored := &corev1.Pod{}
+	sameStored := same
+	if raw, jerr := json.Marshal(pod); jerr == nil && json.Unmarshal(raw, stored) == nil {
+		sameStored = compareReal(rs, stored, ni)
+	}
 	readBack := affinity.GetNodeNameFromAffinity(pod.Spec.Affinity)
 	var perts []perturbJ
 	// (a) template change
@@ -153,7 +161,7 @@ func streamCreatePod(r *rand.Rand, i int, tier string) *Case {
 	sort.Strings(cat)
 	return &Case{Fn: "create_pod",
 		In: map[string]interface{}{"ers": canon.CERS(rs), "item": canonItem(ni, testNS, testEDS), "affinity": aff},
-		Out: map[string]interface{}{"panic": false, "pod": cp, "err": err != nil, "compareSame": same, "readBack": readBack,
+		Out: map[string]interface{}{"panic": false, "pod": cp, "err": err != nil, "compareSame": same, "compareStored": sameStored, "readBack": readBack,
 			"perturbations": perts}, Cat: cat}
 }
 
